@@ -202,6 +202,8 @@ class FrameDiff:
                 for n in sorted(names):
                     if (lid, n) in allowed or (lid, '*') in allowed:
                         continue
+                    if (id(live), n) in self.ip.unknown_attrs:
+                        continue        # a constructor attribute unknown to the sidecar: not part of any claimed frame
                     if n not in live.attrs or n not in clone.attrs:
                         out.append(('%r.%s (attribute %s)' % (live, n, 'added' if n in live.attrs else 'deleted'), False))
                         continue
